@@ -28,6 +28,10 @@ R=[
 ('C38', r'^delete-object:diagram-has-import'+T+r':object-(lost|label-changed)', 'Delete of a container whose children come from a spread import inside its map (`c: {...@y}`) drops the import with the container: the imported children (and their labels) are lost instead of being moved to the parent'),
 ('C38', r'^delete-object:diagram-has-underscore-reference'+T+r':object-added', 'Delete of a container hoists a grandchild connection `e -> _.b` (inside d inside the deleted a) with its underscore stripped (bumpChildrenUnderscores removes one level at every depth): `e -> b` inside d now creates a new object d.b instead of pointing at the hoisted b'),
 ('C38', r'^delete-object'+F+r':target-inherited:object-lost', 'Delete of an inherited container in a scenario/step board appends `m: null`, which removes the container together with its children in that board; the children are not kept'),
+('C38', r'^delete-attribute:style\.(fill|stroke|opacity)'+Q+r':other-object-attributes-changed', 'Delete("a.style.fill") also removes the attribute from children declared through flat keys with a map (`a.b: L1 {style.fill: …}`): deleteObjField walks every reference of a, including the key path `a.b`, and deletes the field from that key\'s map'),
+('C38', r'^delete-object:diagram-has-glob'+T+r':object-lost', 'Delete of an object whose connections are the only declarations of their other end point (`a -> n`, twice) does not re-create `n` when a glob connection statement (`(* -> n)[*].style…`) also mentions it: ensureNode counts the glob reference as a persisting declaration, but a glob does not create the object'),
+('C38', r'^delete-object'+T+r':object-added$', 'Delete of a sql_table that has a connection from its own column to itself (`t.id -> t`) keeps the column as a stray top-level object `id` (ensureNode re-creates the other end point of every removed connection, here a column of the table being deleted)'),
+('C38', r'^delete-object'+F+T+r':object-lost$', 'Delete of an object that is declared only inside a connection key below a container that itself exists only through that key (`a.d.b -> a.c`, delete a.d.b) removes the connection and with it the intermediate container a.d; only the other end point is re-created'),
 # C39
 ('C39', r'^(rename|move-[a-z-]+):diagram-has-import'+T+r':object-added', 'Rename / Move of an object that comes from an imported file succeeds but can only rewrite the local references (`a -> i` becomes `a -> z`): the imported object keeps its name and place and a new empty object appears'),
 ('C39', r'^move-[a-z-]+:diagram-has-import'+T+r':object-lost', 'Move of a container whose children come from a spread import inside its map (`c: {...@y}`) without its descendants re-creates the container without the import: the imported children are lost instead of staying in the former parent'),
